@@ -5,7 +5,7 @@
    strict_total ltb := irreflexive, transitive, incomparable elements are equal (the dtype's < ; NaN-free) *)
 From Coq Require Import ZArith List Bool.
 From EV Require Import Res Arr Spans SpansSpec SpansBase SpansRef SpansField SpansKernels SpansIndexed SpansOrder
-  SpansReduce SpansMerge SpansIndexedReduce SpansMain.
+  SpansReduce SpansMerge SpansIndexedReduce SpansMain SpansSorted SpansFilter.
 Import ListNotations.
 Open Scope Z_scope.
 
@@ -193,3 +193,40 @@ Theorem field_apply_spans_ok : forall (R:Type) (kernel:list Z -> res R) sp, ssor
   field_apply_spans kernel sp = kernel sp.
 Proof. exact (@field_apply_spans_ok_pf). Qed.
 Print Assumptions field_apply_spans_ok.
+
+(* ---- 10. the *_filter kernels: empty spans allowed; their flag is False and their dest entry is left alone -- *)
+(* weak_spans n sp = non-decreasing, within [0, n];  filter_dest_ref f sp xs dest0 = [ if sp[i] = sp[i+1] then dest0[i]
+   else f sp[i] (rows of span i) ];  filter_flags_ref sp = [ sp[i] <> sp[i+1] ] *)
+Theorem apply_spans_index_of_min_filter_correct : forall (A:Type) (ltb:A -> A -> bool) (d:A), strict_total ltb ->
+  forall sp (src:list A) dest flt, weak_spans (len src) sp -> len dest = len sp - 1 -> len flt = len sp - 1 ->
+  apply_spans_index_of_min_filter ltb sp src dest flt =
+  Ok (filter_dest_ref (fun a rows => a + argmin_spec ltb rows) sp src dest, filter_flags_ref sp).
+Proof. exact (@apply_spans_index_of_min_filter_ref). Qed.
+Print Assumptions apply_spans_index_of_min_filter_correct.
+Theorem apply_spans_index_of_max_filter_correct : forall (A:Type) (ltb:A -> A -> bool) (d:A) sp (src:list A) dest flt,
+  strict_total ltb -> weak_spans (len src) sp -> len dest = len sp - 1 -> len flt = len sp - 1 ->
+  apply_spans_index_of_max_filter ltb sp src dest flt =
+  Ok (filter_dest_ref (fun a rows => a + argmax_spec ltb rows) sp src dest, filter_flags_ref sp).
+Proof. exact (@apply_spans_index_of_max_filter_ref). Qed.
+Print Assumptions apply_spans_index_of_max_filter_correct.
+Theorem apply_spans_index_of_first_filter_correct : forall (A:Type) sp (xs:list A) dest flt,
+  sorted sp -> 1 <= len sp -> len dest = len sp - 1 -> len flt = len sp - 1 ->
+  apply_spans_index_of_first_filter sp dest flt =
+  Ok (filter_dest_ref (fun a (_:list A) => a) sp xs dest, filter_flags_ref sp).
+Proof. exact (@apply_spans_index_of_first_filter_ref). Qed.
+Print Assumptions apply_spans_index_of_first_filter_correct.
+Theorem apply_spans_index_of_last_filter_correct : forall (A:Type) sp (xs:list A) dest flt,
+  weak_spans (len xs) sp -> len dest = len sp - 1 -> len flt = len sp - 1 ->
+  apply_spans_index_of_last_filter sp dest flt =
+  Ok (filter_dest_ref (fun a (rows:list A) => a + len rows - 1) sp xs dest, filter_flags_ref sp).
+Proof. exact (@apply_spans_index_of_last_filter_ref). Qed.
+Print Assumptions apply_spans_index_of_last_filter_correct.
+Example weak_spans_example : weak_spans 3 [0;0;2;2;3].
+Proof. split; [apply sortedb_sorted; reflexivity|]. repeat split; vm_compute; congruence. Qed.
+
+(* ---- 11. check_if_sorted_for_multi_fields (the group-by precondition test) decides lexicographic order ----- *)
+Theorem check_if_sorted_correct : forall (A:Type) (ltb:A -> A -> bool) (d:A), strict_total ltb ->
+  forall (fields:list (list A)) (n:Z), fields <> [] -> Forall (fun f => len f = n) fields ->
+  check_if_sorted_for_multi_fields ltb fields = Ok (rows_sortedb ltb (rows_of d fields n)).
+Proof. exact (@check_if_sorted_ref). Qed.
+Print Assumptions check_if_sorted_correct.
